@@ -292,9 +292,21 @@ def build_c(unit, units, outdir, defines=()):
             if fw not in parts:
                 parts.append(fw)
     parts.append(types.typedefs())
-    for sname, members in shared['selfs'].items():
-        if sname == '_noself' or sname in records.values():
-            continue
+    # struct bodies in dependency order (a by-value member needs its struct to be complete first)
+    names = [n_ for n_ in shared['selfs'] if n_ != '_noself' and n_ not in records.values()]
+    ordered = []
+
+    def visit(n_, stack=()):
+        if n_ in ordered or n_ in stack:
+            return
+        for ct_ in shared['selfs'][n_].values():
+            if ct_ in names and ct_ != n_:
+                visit(ct_, stack + (n_,))
+        ordered.append(n_)
+    for n_ in names:
+        visit(n_)
+    for sname in ordered:
+        members = shared['selfs'][sname]
         parts.append('typedef struct %s {\n%s\n} %s;' % (sname, '\n'.join('\t%s %s;' % (ct, m) for m, ct in members.items()), sname))
     shim_ghosts = []
     for vn, el in types.vecs.items():
